@@ -15,7 +15,7 @@ class ColumnQualifierTuple(NamedTuple):
 
 class AnalyzerContext(NamedTuple):
     # CTE queries that can be select from in current query context
-    cte: Optional[set[SubQuery]] = None
+    cte: Optional[list[SubQuery]] = None
     # table that current top-level query is writing to, subquery in case of subquery context
     write: Optional[set[Union[SubQuery, Table]]] = None
     # columns that write table specifies, used for `INSERT INTO x (col1, col2) SELECT` syntax
